@@ -502,11 +502,11 @@ def enterScript (p : Prog) (gas : Nat) (s : VmState) (label : UInt32) (arity : N
     if s.stack.count < arity then failAt s .missingArgument else
     let fr : Frame := { src := pos, dst := p.bytecode.size - 1, stackOffset := s.stack.count - arity, closure := closure }
     if s.frames.length + 1 > s.frameCap then failAt s .callStackOverflow else
-    if s.frames.length + 2 > s.frameCap then failAt { s with frames := s.frames ++ [fr] } .callStackOverflow else
+    if s.frames.length + 2 > s.frameCap then (s, .error ⟨.callStackOverflow, 0, s.frames ++ [fr]⟩) else
     match exec p gas (.loop pos) { s with frames := s.frames ++ [fr, fr] } with
     | (s', .ok _) =>
-      ({ s' with frames := s'.frames.dropLast, stack := s'.stack.pop.1 }, .ok (some s'.stack.pop.2))
-    | (s', .error e) => (s', .error e)
+      ({ s' with frames := s'.frames.take s.frames.length, stack := s'.stack.pop.1 }, .ok (some s'.stack.pop.2))
+    | (s', .error e) => ({ s' with frames := s'.frames.take s.frames.length }, .error e)
 
 theorem exec_call (p : Prog) (gas : Nat) (f : Val) (s : VmState) :
     exec p (gas+1) (.call f) s =
@@ -549,7 +549,7 @@ theorem enterScript_pres {R : VmState → VmState → Prop} [CounterFrame R] (p 
     split
     · exact StateOrder.refl s
     split
-    · exact CounterFrame.of_keep ⟨rfl, rfl, rfl⟩
+    · exact StateOrder.refl s
     next pos _ _ _ _ =>
     have h := ih (.loop pos) { s with frames := s.frames ++ [⟨pos, p.bytecode.size - 1, s.stack.count - ar, c⟩, ⟨pos, p.bytecode.size - 1, s.stack.count - ar, c⟩] }
     have h0 : R s { s with frames := s.frames ++ [⟨pos, p.bytecode.size - 1, s.stack.count - ar, c⟩, ⟨pos, p.bytecode.size - 1, s.stack.count - ar, c⟩] } :=
@@ -560,7 +560,7 @@ theorem enterScript_pres {R : VmState → VmState → Prop} [CounterFrame R] (p 
       exact StateOrder.trans h0 (StateOrder.trans h (CounterFrame.of_keep ⟨rfl, rfl, rfl⟩))
     · next s' _ heq =>
       rw [heq] at h
-      exact StateOrder.trans h0 h
+      exact StateOrder.trans h0 (StateOrder.trans h (CounterFrame.of_keep ⟨rfl, rfl, rfl⟩))
 
 /-- **every run of the dispatch loop / of `run_function` respects a loop frame** -/
 theorem exec_pres {R : VmState → VmState → Prop} [LoopFrame R] (p : Prog) :
@@ -1235,7 +1235,7 @@ theorem enterScript_shift (p : Prog) (δ g₁ g₂ : Nat)
   by_cases h2 : s.frames.length + 1 > s.frameCap
   · simp only [h1, h2, if_true, if_false]; intro _; rfl
   by_cases h3 : s.frames.length + 2 > s.frameCap
-  · simp only [h1, h2, h3, if_true, if_false]; intro _; rfl
+  · simp only [h1, h2, h3, if_true, if_false]; intro _; trivial
   simp only [h1, h2, h3, if_false]
   have key := ih (.loop pos) { s with frames := s.frames ++ [⟨pos, p.bytecode.size - 1, s.stack.count - ar, c⟩, ⟨pos, p.bytecode.size - 1, s.stack.count - ar, c⟩] }
   rcases hex : exec p g₁ (.loop pos) { s with frames := s.frames ++ [⟨pos, p.bytecode.size - 1, s.stack.count - ar, c⟩, ⟨pos, p.bytecode.size - 1, s.stack.count - ar, c⟩] } with ⟨s', r⟩
@@ -1248,6 +1248,7 @@ theorem enterScript_shift (p : Prog) (δ g₁ g₂ : Nat)
       | (s', .ok _) => _
       | (s', .error e) => _) = _
     rw [this]
+    rfl
   | ok v =>
     have := key (fun e' he' => by cases he')
     show (match exec p g₂ (.loop pos) (VmState.shift δ { s with frames := s.frames ++ [⟨pos, p.bytecode.size - 1, s.stack.count - ar, c⟩, ⟨pos, p.bytecode.size - 1, s.stack.count - ar, c⟩] }) with
